@@ -27,7 +27,7 @@ def run_pool(arg):
     exe, args, tag = arg
     oc = core.Outcome(tag)
     try:
-        r = core.run_tool([exe] + args, timeout=1800, binary="pool_sched")
+        r = core.run_tool([exe] + args, timeout=1800, binary="pool_sched", pin_cpu=True)
         out = r.out.decode(errors="replace")
         m = re.search(r"^RESULT .*$", out, re.M)
         for v in re.finditer(r"^VIOL (\S+) (.*)$", out, re.M):
@@ -66,7 +66,7 @@ def run_blk(arg):
         if not mref:
             oc.inconclusive.append("no reference: %s" % ref.err[-200:])
             return oc
-        r = core.run_tool([blk, mode, str(a), str(b), scen, str(W), str(Q)], timeout=1800, binary="blkproc_sched")
+        r = core.run_tool([blk, mode, str(a), str(b), scen, str(W), str(Q)], timeout=1800, binary="blkproc_sched", pin_cpu=True)
         out = r.out.decode(errors="replace")
         d = re.search(r"^DEADLOCK (.*)$", out, re.M)
         if d:
